@@ -55,4 +55,32 @@ EmClamped(mode, x, S, clamp) ==
 EmTerm(mode, x, S, clamp) == [w \in S |-> IF EmClamped(mode, x, S, clamp) THEN <<"zero">> ELSE <<"exp", x[w]>>]
 \* licence: equal, or the term is below exp(-clamp) at that wavenumber (then 0 and exp(-x) differ by <= exp(-clamp))
 EmLicensed(efull, esub, xw, clamp) == esub = efull \/ xw >= clamp
+\* ---------------------------------------------------- one computation on its own
+\* The licence for ONE computation, against the complete sum tot of all contributions
+\* (no early exit): a contribution may be left out at a wavenumber only where the layer
+\* is already darker than the cut-off AT THAT WAVENUMBER.  (Optical depths are >= 0.)
+SatRunLicensed(t, tot, thr) == t = tot \/ (t > thr /\ t <= tot)
+\* emission term against exp(-x): symbolic term is the exponential, or 0 where x >= clamp there
+EmTermLicensed(term, xw, clamp) == term = <<"exp", xw>> \/ (term = <<"zero">> /\ xw >= clamp)
+
+\* ------------------------------------------- logged (scaled integer) measurements
+\* Trace events carry optical depths as integers scaled by S; a logged depth saturates at
+\* cap (transmittance underflow).  tol = rounding of the log.  The real exit test is
+\* "> thr" on floats, so a logged value may sit one rounding unit below thr.
+SatCap(x, cap) == IF x > cap THEN cap ELSE x
+SatNear(a, b, tol) == a - b <= tol /\ b - a <= tol
+SatRunLicensedTol(t, tot, thr, tol, cap) ==
+    \/ SatNear(t, SatCap(tot, cap), tol)
+    \/ (t >= thr - tol /\ t <= SatCap(tot, cap) + tol)
+SatPairLicensedTol(tfull, tsub, thr, tol) ==
+    SatNear(tfull, tsub, tol) \/ (tfull >= thr - tol /\ tsub >= thr - tol)
+\* emission: the logged layer value E = [exp(-xl) or 0] - [exp(-xd) or 0]; el, ed are the
+\* exponentials evaluated at the boundary (scaled); 0 is licensed only where x >= clamp there
+EmTermValues(x, e, clamp, tol) == IF x >= clamp - tol THEN {0, e} ELSE {e}
+EmValueLicensed(E, xl, el, xd, ed, clamp, tol, etol) ==
+    \E a \in EmTermValues(xl, el, clamp, tol), b \in EmTermValues(xd, ed, clamp, tol) : SatNear(E, a - b, etol)
+\* what may separate two computations at one wavenumber: nothing, unless a term is licensed there
+EmPairLicensed(Ef, Es, xl, el, xd, ed, clamp, tol, etol) ==
+    LET slack == (IF xl >= clamp - tol THEN el ELSE 0) + (IF xd >= clamp - tol THEN ed ELSE 0)
+    IN  SatNear(Ef, Es, etol + slack)
 =============================================================================
